@@ -38,6 +38,10 @@ def pairings(quick):
     P.append(("Hamming(7,4)/right", lambda: E.HammingCodeEncoder(3, information_set="right"), "SyndromeLookupDecoder", lambda e: D.SyndromeLookupDecoder(e), "hard", 1, True))
     P.append(("Hamming(7,4)/[0,2,4,6]", lambda: E.HammingCodeEncoder(3, information_set=[0, 2, 4, 6]), "SyndromeLookupDecoder", lambda e: D.SyndromeLookupDecoder(e), "hard", 1, True))
     P.append(("BCH(15,7)", lambda: E.BCHCodeEncoder(4, 5), "BerlekampMasseyDecoder", lambda e: D.BerlekampMasseyDecoder(e), "hard", 2, True))
+    # non-perfect codes through the syndrome table: a table whose entries are not minimum-weight coset leaders is invisible on perfect codes
+    P.append(("BCH(15,7)", lambda: E.BCHCodeEncoder(4, 5), "SyndromeLookupDecoder", lambda e: D.SyndromeLookupDecoder(e), "hard", 2, True))
+    P.append(("RM(1,3)", lambda: E.ReedMullerCodeEncoder(1, 3), "SyndromeLookupDecoder", lambda e: D.SyndromeLookupDecoder(e), "hard", 1, True))
+    P.append(("Cyclic(7,3)", lambda: E.CyclicCodeEncoder(code_length=7, generator_polynomial=0b10111), "SyndromeLookupDecoder", lambda e: D.SyndromeLookupDecoder(e), "hard", 1, True))
     P.append(("RM(1,3)", lambda: E.ReedMullerCodeEncoder(1, 3), "BruteForceMLDecoder", lambda e: D.BruteForceMLDecoder(e), "hard", 1, True))
     P.append(("Repetition(3)", lambda: E.RepetitionCodeEncoder(3), "BruteForceMLDecoder", lambda e: D.BruteForceMLDecoder(e), "hard", 1, True))
     P.append(("Golay(23,12)", lambda: E.GolayCodeEncoder(), "SyndromeLookupDecoder", lambda e: D.SyndromeLookupDecoder(e), "hard", 3, True))
